@@ -180,6 +180,19 @@ def directed():
                                 ["be", "em", 0, True], ["do", "re", 0, True], ["be", "af", 0, True], ["go", 0, d]]
                                for d in (2, 1)]},
              ops=[["start", 1, []], ["pass", [[1, 0, 2]], []], ["pass", [[2, 0, 1]], [[1, 0, 1]]], ["pass", [[0, 0, 2]], []], ["end"]]),
+        # registered act classes whose own default context is not endo, declared for endo: at("endo") + do(name) and
+        # do(name, nabe="endo"); traced ones in the run, hio's own (count, discount, marks, end) built only
+        dict(forest([None, 0], counts=[[0, 0, 0, 0, 2, 1, 0, 1, 1, 0]] * 2), decl=[[0, "none"], [1, "name"]],
+             verbs={"godest": [[0, 0, 1], [1, 0, 0]],
+                    "stmts": [[["at", "en"], ["reg", "en", 0, False, "re"], ["reg", "en", 1, True, "ex"], ["at", "native"],
+                               ["reg", "re", 0, False, "re"], ["reg", "ex", 0, True, "af"], ["go", 0, 1]],
+                              [["reg", "en", 0, True, "af"], ["at", "en"], ["reg", "en", 1, False, "em"],
+                               ["at", "ex"], ["reg", "ex", 0, False, "re"], ["reg", "re", 0, True, "ex"], ["go", 0, 0]]],
+                    "regs": [[["at", "en"], ["name", "count", None], ["name", "discount", "en"], ["name", "Mark", "en"],
+                              ["at", "native"], ["name", "count", None], ["name", "discount", None], ["name", "RelapseMark", None],
+                              ["name", "end", "ex"], ["at", "rex"], ["name", "LapseMark", None], ["name", "Count", "en"]],
+                             [["name", "discount", "en"], ["at", "en"], ["name", "RelapseMark", None], ["name", "count", "pre"]]]},
+             ops=[["start", 0, []], ["pass", [[0, 0, 1]], []], ["pass", [[1, 0, 0]], []], ["end"]]),
         # cross-tree transition, ops after the end are ignored
         dict(two, ops=[["start", 0, []], ["pass", [[0, 0, 2]], []], ["pass", [[1, 0, 0]], []], ["end"], ["pass", [], []], ["end"]]),
         # pass before start
@@ -345,7 +358,15 @@ def verb_statements(rng, f, godest):
             elif rng.random() < 0.3:
                 other = rng.choice(list(NABE) + ["native"])       # an unrelated context is current; nabe= overrides it
                 stmts.append(["at", other]); ctx = other
-            stmts.append([rng.choice(["do", "be"]), k, pend[k], explicit])
+            verb = rng.choice(["do", "be", "reg"])
+            if verb == "reg":
+                # a registered class whose own default context is another one: the declared context must win
+                dk = rng.choice(list(NABE))
+                if not explicit and ctx == "native" and dk != k:
+                    dk = k
+                stmts.append(["reg", k, pend[k], explicit, dk])
+            else:
+                stmts.append([verb, k, pend[k], explicit])
             pend[k] += 1
             if gos and rng.random() < 0.3:
                 stmts.append(gos.pop(0))
@@ -378,8 +399,18 @@ def verb_case(rng):
         ops.append(["pass", gos, fails])
         active = _expected_pass(f, active, gos, fails)[1]
     ops.append(["end"])
+    regs = []
+    for b in range(n):
+        row = []
+        for _ in range(rng.choice([0, 2, 4, 6])):
+            if rng.random() < 0.35:
+                row.append(["at", rng.choice(list(NABE) + ["native", "en", "en"])])
+            else:
+                row.append(["name", rng.choice(list(REGNAMES)), rng.choice([None, None, "en", "en", rng.choice(list(NABE))])])
+        regs.append(row)
     return dict(f, ops=ops, decl=declare(rng, f, 0.5),
-                verbs={"stmts": verb_statements(rng, f, godest), "godest": [[b, j, d] for (b, j), d in sorted(godest.items())]})
+                verbs={"stmts": verb_statements(rng, f, godest), "godest": [[b, j, d] for (b, j), d in sorted(godest.items())],
+                       "regs": regs})
 
 
 def generate(rng, tier):
@@ -395,12 +426,34 @@ def generate(rng, tier):
 
 # ----------------------------------------------------------------------------- implementation
 
+_traced = {}
+_uniq = [0]
+REGNAMES = {"count": "re", "discount": "ex", "Mark": "em", "LapseMark": "em", "RelapseMark": "rm", "end": "en",
+            "Count": "re"}      # registered act classes usable without extra iops, and the kind of their default context
+
+
+def traced_classes():
+    """registered act classes (one per default context) whose act records the call like the do/be tracer does"""
+    if not _traced:
+        from hio.base.hier.acting import ActBase, register
+        for kind in NABE:
+            def init(self, nabe=NABE[kind], **kwa):
+                ActBase.__init__(self, nabe=nabe, **kwa)
+
+            def act(self, **iops):
+                return type(self).Tracer(**self.iops)
+            name = f"C25Act{kind}"
+            cls = ActBase.Registry.get(name) or register()(type(name, (ActBase,), {"__init__": init, "act": act, "Tracer": None}))
+            _traced[kind] = cls
+    return _traced
+
+
 def run_impl(case):
     from hio.base.hier.boxing import Box, Boxer
     from hio.base.hier import Bag
     n = len(case["overs"])
     trace, cur = [], {"gos": {}, "fails": {}}
-    built, built_acts = None, None
+    built, built_acts, reg_filed = None, None, None
     if case.get("decl"):
         # the boxwork is declared through Boxer.make() and the bx verb: over by name, by object, None, or default
         maker = Boxer(name="mkr")
@@ -427,6 +480,10 @@ def run_impl(case):
                 trace.append(list(self.ident))
                 return cur["gos"].get((self.ident[1], self.ident[2])) is not None
 
+        if verbs:
+            for cls in traced_classes().values():
+                cls.Tracer = staticmethod(tracer)
+
         def fun(H, bx, go, do, on, at, be):
             made = {}
             if verbs:
@@ -450,13 +507,33 @@ def run_impl(case):
                     elif st[0] == "go":
                         go(f"b{st[2]}", TraceNeed(b, st[1], hold=H))
                     else:
-                        verb, kind, j, explicit = st
+                        verb, kind, j, explicit = st[:4]
                         kw = dict(nabe=NABE[kind]) if explicit else {}
                         if verb == "do":
                             do(tracer, k=K[kind], b=b, j=j, **kw)
+                        elif verb == "reg":      # do(<registered class name>) whose own default context is st[4]
+                            do(f"C25Act{st[4]}", k=K[kind], b=b, j=j, **kw)
                         else:
                             be("c25.value", tracer, k=K[kind], b=b, j=j, **kw)
         maker.make(fun)
+        if verbs and verbs.get("regs"):
+            # hio's own registered act classes by name, in every context: built only, never run
+            maker2 = Boxer(name="mkr2")
+            _uniq[0] += 1
+            uniq = _uniq[0]          # act instance names are unique per process
+
+            def fun2(H, bx, go, do, on, at, be):
+                for b, _ in case["decl"]:
+                    bx(name=f"b{b}", over=None)
+                    for i, st in enumerate(verbs["regs"][b]):
+                        if st[0] == "at":
+                            at(NABE[st[1]] if st[1] != "native" else "native")
+                        else:
+                            do(st[1], name=f"c25r{uniq}x{b}x{i}", **(dict(nabe=NABE[st[2]]) if st[2] else {}))
+            maker2.make(fun2)
+            reg_filed = [[i, [[K[kind], [int(a.name.rsplit("x", 1)[1]) for a in getattr(maker2.boxes[f"b{i}"], ATTR[kind])
+                                         if getattr(a, "name", "").startswith(f"c25r{uniq}x")]] for kind in KINDS if kind != "go"]]
+                         for i in range(n)]
         boxes = [maker.boxes[f"b{i}"] for i in range(n)]
         idx = {id(b): i for i, b in enumerate(boxes)}
         built = [[b, idx.get(id(boxes[b].over)) if boxes[b].over is not None else None,
@@ -533,7 +610,7 @@ def run_impl(case):
             drive(lambda: gen.send(tyme))
         obs.append({"status": list(status), "trace": [list(e) for e in trace]})
     # last element: what bx built, per declared box [box, over, unders, pile] (None when the boxes were linked directly)
-    obs.append({"built": built, "acts": built_acts})
+    obs.append({"built": built, "acts": built_acts, "regs": reg_filed})
     return obs
 
 
@@ -576,6 +653,7 @@ def _expected_pass(case, active, gos, fails):
 
 
 def oracle(case, obs):
+    last = obs[-1]
     built, acts, obs = obs[-1]["built"], obs[-1].get("acts"), obs[:-1]
     if built is not None:
         for b, ov, un, pile in built:
@@ -589,6 +667,20 @@ def oracle(case, obs):
                 if got != want:
                     return (f"the verbs filed under {KINDS[k]} of box {b}: {got}; declared: {want} "
                             f"(statements {case['verbs']['stmts'][b]})")
+    regs = last.get("regs")
+    if regs is not None:
+        for b, lists in regs:
+            want, ctx = {k: [] for k in range(10)}, "native"
+            for i, st in enumerate(case["verbs"]["regs"][b]):
+                if st[0] == "at":
+                    ctx = st[1]
+                else:
+                    eff = st[2] or (ctx if ctx != "native" else REGNAMES[st[1]])
+                    want[K[eff]].append(i)
+            for k, got in lists:
+                if got != want[k]:
+                    return (f"do(<registered class>) statements of box {b} filed under {KINDS[k]}: {got}; by explicit nabe=, "
+                            f"else at() context, else class default: {want[k]} (statements {case['verbs']['regs'][b]})")
     if not consistent(case):
         return None          # the property speaks about box trees
     status = ["idle"]
@@ -688,7 +780,7 @@ def to_coq(case, obs):
         coq_list([coq_option(o, str, "nat") for o in case["overs"]], "option nat"),
         coq_list([coq_list(map(str, u), "nat") for u in case["unders"]], "list nat"),
         coq_list([coq_list(map(str, c), "nat") for c in case["counts"]], "list nat")))
-    built, acts, obs = obs[-1]["built"], obs[-1].get("acts"), obs[:-1]
+    built, acts, regs, obs = obs[-1]["built"], obs[-1].get("acts"), obs[-1].get("regs"), obs[:-1]
     ob = coq_list(["(%s, %s)" % (_status(o["status"]), coq_list([f"Box.E {k} {b} {j}" for k, b, j in o["trace"]], "Box.ev"))
                    for o in obs], "Box.status * list Box.ev")
     mode = {"name": lambda b: f"(Box.MExplicit {case['overs'][b]})", "obj": lambda b: f"(Box.MExplicit {case['overs'][b]})",
@@ -704,16 +796,32 @@ def to_coq(case, obs):
                 if st[0] == "at":
                     row.append(f"(Box.SAt {0 if st[1] == 'native' else K[st[1]] + 1})")
                 elif st[0] != "go":
-                    _, kind, j, explicit = st
-                    row.append("(Box.SAct %s %d %d)" % (f"(Some {K[kind] + 1})" if explicit else "None", K[kind], j))
+                    kind, j, explicit = st[1:4]
+                    dflt = K[st[4]] + 1 if st[0] == "reg" else 5
+                    row.append("(Box.SAct %s %d %d %d)" % (f"(Some {K[kind] + 1})" if explicit else "None", dflt, K[kind], j))
             stmts.append(coq_list(row, "Box.stmt"))
         for b, lists in acts:
             filed.append(coq_list(["(%d, %s)" % (k + 1, coq_list([f"({a[0]}, {a[2]})" for a in got], "nat * nat"))
                                    for k, got in lists if k != K["go"]], "nat * list (nat * nat)"))
+    rstmts, rfiled = [], []
+    if regs is not None:
+        for b, ss in enumerate(case["verbs"]["regs"]):
+            row = []
+            for i, st in enumerate(ss):
+                if st[0] == "at":
+                    row.append(f"(Box.SAt {0 if st[1] == 'native' else K[st[1]] + 1})")
+                else:
+                    row.append("(Box.SAct %s %d 99 %d)" % (f"(Some {K[st[2]] + 1})" if st[2] else "None",
+                                                          K[REGNAMES[st[1]]] + 1, i))
+            rstmts.append(coq_list(row, "Box.stmt"))
+        for b, lists in regs:
+            rfiled.append(coq_list(["(%d, %s)" % (k + 1, coq_list([f"(99, {i})" for i in got], "nat * nat"))
+                                    for k, got in lists], "nat * list (nat * nat)"))
     return ("{| Box.c_forest := %s; Box.c_ops := %s; Box.c_obs := %s; Box.c_decl := %s; Box.c_built := %s; "
-            "Box.c_stmts := %s; Box.c_filed := %s |}" % (
+            "Box.c_stmts := %s; Box.c_filed := %s; Box.c_rstmts := %s; Box.c_rfiled := %s |}" % (
                 fo, coq_list([_op(o) for o in case["ops"]], "Box.op"), ob, decl, bl,
-                coq_list(stmts, "list Box.stmt"), coq_list(filed, "list (nat * list (nat * nat))")))
+                coq_list(stmts, "list Box.stmt"), coq_list(filed, "list (nat * list (nat * nat))"),
+                coq_list(rstmts, "list Box.stmt"), coq_list(rfiled, "list (nat * list (nat * nat))")))
 
 
 def distribution(cases, obs):
